@@ -145,6 +145,20 @@ def worker_main(pid, tier, seed, unit_file, out_file):
     root = os.path.realpath(REPO)
     if not os.path.realpath(ombott.__file__).startswith(root + os.sep):
         raise RuntimeError(f'ombott imported from {ombott.__file__}, expected under {root}')
+    cov = None
+    if os.environ.get('VERIF_COVERAGE'):
+        # development aid: which lines of the code under test the workloads reach at all (each line reported once, then disabled)
+        cov = set()
+        root_pkg = os.path.join(root, 'ombott') + os.sep
+        mon = sys.monitoring
+
+        def _on_line(code, line):
+            if code.co_filename.startswith(root_pkg):
+                cov.add((code.co_filename[len(root_pkg):], line))
+            return mon.DISABLE
+        mon.use_tool_id(4, 'vmon-coverage')
+        mon.register_callback(4, mon.events.LINE, _on_line)
+        mon.set_events(4, mon.events.LINE)
     ctx = Ctx(pid, tier, seed, job['index'])
     if sys.flags.optimize:
         ctx.count('units_run_under_python_-O')
@@ -165,6 +179,11 @@ def worker_main(pid, tier, seed, unit_file, out_file):
     except Exception:  # noqa
         pass
     res = ctx.dump()
+    if cov is not None:
+        d = os.environ['VERIF_COVERAGE']
+        os.makedirs(d, exist_ok=True)
+        with open(os.path.join(d, f'{pid}-{job["index"]}-{os.getpid()}.json'), 'w') as f:
+            json.dump(sorted(cov), f)
     res['wall_s'] = real_time() - t0
     with open(out_file, 'w') as f:
         json.dump(res, f)
